@@ -99,4 +99,13 @@ inductive Rep (S : List UInt8) : Pos → List SG → Pos → Prop where
 
 def newBytes (sgs : List SG) : List UInt8 := (sgs.map (fun g => g.new)).flatten
 
+/-- The replay of the property text: starting at stream offset `pos`, for every ScatterGather
+    `pos += skip; new = S[pos : pos+|new|]; pos += |new|`. -/
+def Replay (S : List UInt8) : Nat → List SG → Prop
+  | _, [] => True
+  | pos, g :: rest =>
+    0 ≤ g.skip ∧ g.new = slice S (pos + g.skip.toNat) g.new.length ∧
+    pos + g.skip.toNat + g.new.length ≤ S.length ∧
+    Replay S (pos + g.skip.toNat + g.new.length) rest
+
 end Gp.Reasm
